@@ -121,6 +121,7 @@ func corpus() []Scenario {
 		{Kind: "basic", Beh: Beh{SelfSig: true, ExitOnDone: -1}, Sched: sch("launch timer start exit stop start stop kill exit")}, // was C17-i: no blocked STOP, no crash
 		{Kind: "basic", Beh: Beh{Fork: true, ExitOnDone: -1}, Sched: sch("launch timer start exit stop")},                     // was C17-h: the forked child is swept
 		{Kind: "basic", Beh: Beh{Fork: true, ExitOnDone: -1}, Sched: sch("launch timer start stop")},                          // group kill works
+		{Kind: "basic", Beh: nb, Sched: sch("launch timer start start stop kill")},                // was C17-l: second START refused
 		{Kind: "ctl", Beh: nb, Sched: sch("launch kill settle")},                                 // C17-j: KILL before the dial is refused
 		{Kind: "ctl", Beh: nb, Sched: sch("launch listen kill settle")},                          // was C17-e: killed under the start-up poll, reports KILLED
 		{Kind: "ctl", Beh: Beh{Ign: true, ExitOnDone: -1}, Sched: sch("launch listen ready kill kill settle")}, // was C17-f: second KILL refused
